@@ -36,6 +36,7 @@ type c20Event struct {
 	ReqURL, UpURL          string
 	Service                string
 	Hdr                    map[string]string
+	NoResponse             bool // an event without a response (the Event documents all four HTTP members as optional)
 }
 
 func (e *c20Event) event() *logger.Event {
@@ -47,6 +48,9 @@ func (e *c20Event) event() *logger.Event {
 		UpstreamAddr: e.Upstream, UpstreamService: e.Service}
 	ev.RequestURL, _ = url.Parse(e.ReqURL)
 	ev.UpstreamURL, _ = url.Parse(e.UpURL)
+	if e.NoResponse {
+		ev.Response = nil
+	}
 	return ev
 }
 
@@ -123,6 +127,7 @@ func genC20Event(r *rand.Rand, unixSafe bool) *c20Event {
 	e.ReqURL = choose(r, []string{"http://foo.test/a/b?x=1", "https://foo.test:8443/%2F?q=%26x", "http://foo.test/", "ws://foo.test/ws?a=b#frag"})
 	e.UpURL = choose(r, []string{"http://1.2.3.4:80/a/b?x=1", "https://host/", "http://[::1]:80/x%20y?q", "http://backend"})
 	e.Service = choose(r, []string{"svc-a", "svc b", ""})
+	e.NoResponse = r.Intn(40) == 0
 	e.Hdr = map[string]string{}
 	if r.Intn(2) == 0 {
 		e.Hdr["User-Agent"] = choose(r, []string{"curl/8", "Mozilla \"5.0\" $x", "ünï", ""})
@@ -198,8 +203,14 @@ func c20Render(tok string, e *c20Event, ev *logger.Event) []string {
 	case "$request_proto":
 		return []string{e.Proto}
 	case "$response_body_size":
+		if e.NoResponse {
+			return []string{""} // like the request fields without a request: nothing
+		}
 		return []string{strconv.FormatInt(e.Size, 10)}
 	case "$response_status":
+		if e.NoResponse {
+			return []string{""}
+		}
 		return []string{strconv.Itoa(e.Status)}
 	case "$response_time_ms":
 		return []string{c20Seconds(d, time.Millisecond, 3)}
